@@ -110,6 +110,52 @@ func (re *resEngine) summarize(fr *vframe, successOnly bool, fields []string) *r
 		}
 		earlySet[f][p] = true
 	}
+	// loops over constant tables of functions ("for _, step := range initSteps { step(st) }"): the body
+	// runs once per entry, so on entering such a loop every entry's function has been called by the time
+	// the loop is left. The must-effects of all entries are applied on the entry edge of the loop header
+	// when the call is unconditional in the body.
+	tableLoops := map[*ssa.BasicBlock][]*resSummary{}
+	for _, b := range fn.Blocks {
+		for _, instr := range b.Instrs {
+			c, ok := instr.(*ssa.Call)
+			if !ok || calleeOf(c) != nil || c.Call.IsInvoke() {
+				continue
+			}
+			targets := tableCallTargets(c.Call.Value)
+			if len(targets) == 0 {
+				continue
+			}
+			header := loopHeaderOf(b)
+			if header == nil {
+				continue
+			}
+			uncond := true
+			for i := range header.Preds {
+				if header.Dominates(header.Preds[i]) && !b.Dominates(header.Preds[i]) {
+					uncond = false
+				}
+			}
+			if !uncond {
+				continue
+			}
+			for _, g := range targets {
+				if !inSlim(g) || len(g.Blocks) == 0 {
+					continue
+				}
+				nf := &vframe{fn: g, verVals: map[ssa.Value]bool{}, stVals: map[ssa.Value]bool{}}
+				any := false
+				for pi, prm := range g.Params {
+					if pi < len(c.Call.Args) && fr.stVals[c.Call.Args[pi]] {
+						nf.stVals[prm] = true
+						any = true
+					}
+				}
+				if any {
+					tableLoops[header] = append(tableLoops[header], re.summarize(nf, false, fields))
+				}
+			}
+		}
+	}
 	var retStates []fstate
 	work := []int{0}
 	inWork := map[int]bool{0: true}
@@ -160,6 +206,7 @@ func (re *resEngine) summarize(fr *vframe, successOnly bool, fields []string) *r
 				if !any {
 					break
 				}
+				markVersionValues(g, nf.verVals)
 				// a callee whose last result is an error contributes what it guarantees on its success
 				// returns: callers proceed only on err == nil (ignoring the error of a read helper is
 				// reported by C07.errors)
@@ -190,6 +237,13 @@ func (re *resEngine) summarize(fr *vframe, successOnly bool, fields []string) *r
 							ok = true
 						} else if c, isCall := x.Results[0].(*ssa.Call); isCall && calleeOf(c) != nil && inSlim(calleeOf(c)) && onlyReturned(c) {
 							ok = true // tail call "return helper(...)": the helper's success summary was applied at the call
+							// ... unless the helper merely decorates an error known to be non-nil here:
+							// "if err != nil { return wrap(err, ...) }"
+							for _, a := range c.Call.Args {
+								if isErrorType(a.Type()) && knownNonNilAt(a, b) {
+									ok = false
+								}
+							}
 						}
 					}
 				}
@@ -211,6 +265,23 @@ func (re *resEngine) summarize(fr *vframe, successOnly bool, fields []string) *r
 		}
 		for _, s := range succs {
 			changed := false
+			stOut := st
+			if subs := tableLoops[s]; len(subs) > 0 && !s.Dominates(b) {
+				stOut = st.clone()
+				for _, sub := range subs {
+					for f, ps := range sub.early {
+						if !stOut[f] {
+							for _, p := range ps {
+								addEarly(f, p)
+							}
+						}
+					}
+					for f := range sub.must {
+						stOut[f] = true
+					}
+				}
+			}
+			st := stOut
 			if !reached[s.Index] {
 				reached[s.Index] = true
 				in[s.Index] = st.clone()
@@ -276,4 +347,24 @@ func onlyReturned(c *ssa.Call) bool {
 		}
 	}
 	return true
+}
+
+// knownNonNilAt: block b is dominated by the non-nil edge of a nil test of v.
+func knownNonNilAt(v ssa.Value, b *ssa.BasicBlock) bool {
+	for d := b; d != nil; d = d.Idom() {
+		for _, pr := range d.Preds {
+			iff, ok := lastInstr(pr).(*ssa.If)
+			if !ok || len(d.Preds) != 1 {
+				continue
+			}
+			x, nilSucc, ok := nilTest(iff.Cond)
+			if !ok || x != v {
+				continue
+			}
+			if pr.Succs[1-nilSucc] == d {
+				return true
+			}
+		}
+	}
+	return false
 }
